@@ -23,12 +23,14 @@ PLAN = dict(
         quick=[det("rel", H, "cs-rel", 16, 200, 4, tso=True, time_cap=45),
                det("dbg", H, "cs-dbg", 16, 35, 4, tso=True, time_cap=22),
                det("buffer-get-under-reservation", H, "cs-rel", 4, 120, 4, tso=False, time_cap=15, args=["--witness"]),
+               det("limiter-mixed-feeding", H, "cs-rel", 8, 150, 5, tso=True, time_cap=25, args=["--limmix"]),
                cmd("node-contract-model", "harness/c15_fgmodel_rc.cpp", "plain", 2, ["120000", "C15"], link_tbb=True, ldflags=["-lrapidcheck"], replay_tag="fgmodel-"),
                tsan("C15", 8, 240)],
         thorough=[det("rel", H, "cs-rel", 16, 2200, 5, tso=True, time_cap=330),
                   det("dbg", H, "cs-dbg", 16, 700, 5, tso=True, time_cap=240),
                   det("enum-conflict", H, "cs-rel", 16, 40, 2, tso=True, time_cap=120, enum="conflict", enum_cap=120),
                   det("buffer-get-under-reservation", H, "cs-rel", 16, 600, 4, tso=False, time_cap=60, args=["--witness"]),
+                  det("limiter-mixed-feeding", H, "cs-rel", 16, 1500, 6, tso=True, time_cap=120, args=["--limmix"]),
                cmd("node-contract-model", "harness/c15_fgmodel_rc.cpp", "plain", 8, ["3000000", "C15"], link_tbb=True, ldflags=["-lrapidcheck"], replay_tag="fgmodel-"),
                tsan("C15", 16, 600)],
     ),
